@@ -618,6 +618,11 @@ func (c *compiler) buildLA(useTransitions, stats bool) {
 			for is := len(states) - 1; is >= 0; is, i = is-1, i-1 {
 				curr, sym := states[is], c.right[i]
 				if sym < c.grammar.Terminals {
+					if useTransitions {
+						// The transition on a trailing terminal is followed by whatever follows the
+						// rule. LALR(k) chains need this to look past the end of the rule.
+						g[gt] = append(g[gt], c.selectGoto(curr, Sym(sym)))
+					}
 					break
 				}
 				// Inner rule's goto inherits outer follow set.
